@@ -361,7 +361,7 @@ NAN_STRS = ["", "", "NaN", "nan", "NA", "-", ".", "missing"]
 
 
 def gen_csv_case(rng):
-    box = gen_box(rng, p_py=0.15)
+    box = gen_box(rng, p_py=0.15, p_empty=0.03)
     names = box_names(box)
     series = _series_items(box)
     w = {}
@@ -416,7 +416,7 @@ def gen_csv_case(rng):
 def gen_slate_case(rng):
     f = pick(rng, M.FREQS)
     p_other = pick(rng, [0.0, 0.0, 0.0, 0.15])
-    n_items = int(rng.integers(0, 9))
+    n_items = int(rng.integers(1, 9)) if rng.random() < 0.97 else 0
     names = [str(n) for n in rng.choice(NAME_POOL, size=n_items, replace=False)]
     lo = anchor(rng, f)
     n_per = int(rng.integers(1, 13))
